@@ -153,6 +153,10 @@ _M = _Methods(0.7)
 
 FUNCS = {
     "const": lambda x: 0.0 * x + 2.5,
+    # integrands that return ONE number for the whole array of abscissae (a flat background): the weighted sum of a
+    # constant c is c * (b - a)
+    "scalar-const": lambda x: 2.5,
+    "npscalar-const": lambda x: np.float64(-1.25),
     "cubic": lambda x: x ** 3 - 2.0 * x + 1.0,
     "exp": lambda x: np.exp(x),
     "cos3": lambda x: np.cos(3.0 * x),
@@ -192,7 +196,8 @@ F2 = {
     "runge2": lambda x, y: 1.0 / (1.0 + x * x + 4.0 * y * y),
 }
 RANGES2 = [((0.0, 2.0), (-1.0, 3.0)), ((-1.0, 1.0), (-1.0, 1.0)), ((1.0, 0.0), (0.0, 2.0)),
-           ((0.0, 1e-9), (-1e3, 1e3)), ((-3.0, -1.0), (2.0, 1.0))]
+           ((0.0, 1e-9), (-1e3, 1e3)), ((-3.0, -1.0), (2.0, 1.0)),
+           ((2.0, 0.0), (3.0, -1.0)), ((1.0, -1.0), (1.0, -1.0))]          # BOTH ranges reversed: the signs cancel
 
 H_FUNC_EVENTS = [("func", "exp", (0.0, 2.0)), ("func", "runge", (-1.0, 0.5)),
                  ("func", "gauss-method", (1.0, -1.0))]
@@ -433,6 +438,8 @@ def main(ctx):
         X, W = mapped_ref(a, b, n)
         Xd = X.astype("f8")
         vals = np.asarray(FUNCS[fname](Xd), dtype="f8")
+        if vals.ndim == 0:
+            vals = np.full(Xd.shape, float(vals))
         exp = math.fsum((W.astype("f8") * vals).tolist())
         return exp, 1e-9 * abs(b - a) * float(np.abs(vals).max())
 
